@@ -55,7 +55,7 @@ describe = S.describe
 
 
 def classify(case, outs):
-    """Known finding `coalesced-behind-ack-only`: window passed by < 1 datagram by a datagram that
+    """Known finding `coalesced-behind-ack-only`: window passed by a single datagram (consecutive ones accumulate) that
     starts with a long-header packet (ack-eliciting data coalesced behind handshake ACKs)."""
     last = {}
     pend = None
@@ -66,7 +66,7 @@ def classify(case, outs):
                 b, tx = pend[1], pend[2]
                 added = r[4 + 5] > b[4 + 5]
                 over = not (r[4 + 4] < max(b[4 + 6], r[4 + 6]))
-                if added and over and (tx[9] & 1) and tx[6] == 0 and r[4 + 4] < max(b[4 + 6], r[4 + 6]) + b[4 + 7] \
+                if added and over and (tx[9] & 1) and tx[6] == 0 and tx[5] <= b[4 + 7] \
                         and b[4 + 16] == 0 and b[4 + 9] == 0:
                     return "coalesced-behind-ack-only"
             pend = None
